@@ -36,6 +36,9 @@ type c12Task struct {
 	// returned) it sends one more packet for the channel: the channel no longer exists, so exactly one
 	// "invalid channel" connection error is due.
 	PostClose bool `json:"post_close,omitempty"`
+	// Split: the channel is used by two goroutines at once, as its read lock allows: this task sends all its
+	// requests one after the other while a second task consumes the responses (pipelined use).
+	Split bool `json:"split,omitempty"`
 }
 
 type c12Plan struct {
@@ -87,6 +90,10 @@ func (c12) Gen(r *Rand, idx int, tier string) interface{} {
 		}
 		if r.Pct(12) {
 			t.EnvSize = Pick(r, []int{512, 512, 1024, 600})
+		}
+		if r.Pct(20) && t.Rounds > 0 {
+			t.Split = true
+			t.Rounds += r.Intn(3)
 		}
 		p.Tasks = append(p.Tasks, t)
 	}
@@ -383,6 +390,10 @@ func (c12) Run(plan interface{}, schedSeed uint64, replay []simrt.Choice, lenien
 	var connErr, mainErr, connCloseErr string
 	var ch0Got []string
 	registered := -1
+	splitUsed := false
+	for _, t := range p.Tasks {
+		splitUsed = splitUsed || t.Split
+	}
 	mainInvalid := 0
 	out := s.Run(func() {
 		conn, err := tds.NewConn(context.Background(), MkInfo(p.QueueSize, 5, false))
@@ -420,17 +431,9 @@ func (c12) Run(plan interface{}, schedSeed uint64, replay []simrt.Choice, lenien
 					tr.newErr = err.Error()
 					return
 				}
-				for rd := 0; rd < tp.Rounds; rd++ {
-					cmd := fmt.Sprintf("t%dr%dn%d", ti+1, rd, tp.Pkgs)
-					if tp.Fill > 0 {
-						// token, 4-byte length and status precede the text
-						cmd += strings.Repeat(" ", tp.Fill*(conn.PacketSize()-8)-6-len(cmd))
-					}
-					if err := ch.SendPackage(ctx, &tds.LanguagePackage{Cmd: cmd}); err != nil {
-						tr.sendErrs = append(tr.sendErrs, err.Error())
-						break
-					}
+				receive := func() bool {
 					var recs []PkgRec
+					ok := true
 					for n := 0; n < 200; n++ {
 						pkg, err := ch.NextPackage(ctx, true)
 						if err != nil {
@@ -439,6 +442,7 @@ func (c12) Run(plan interface{}, schedSeed uint64, replay []simrt.Choice, lenien
 								continue
 							}
 							recs = append(recs, recErr(err))
+							ok = false
 							break
 						}
 						r := recPkg(pkg)
@@ -451,9 +455,37 @@ func (c12) Run(plan interface{}, schedSeed uint64, replay []simrt.Choice, lenien
 						}
 					}
 					tr.recs = append(tr.recs, recs)
+					return ok
+				}
+				var consumer *simrt.Task
+				if tp.Split {
+					consumer = simrt.Spawn(fmt.Sprintf("c%dr", ti+1), func() {
+						for rd := 0; rd < tp.Rounds; rd++ {
+							if !receive() {
+								return
+							}
+						}
+					})
+				}
+				for rd := 0; rd < tp.Rounds; rd++ {
+					cmd := fmt.Sprintf("t%dr%dn%d", ti+1, rd, tp.Pkgs)
+					if tp.Fill > 0 {
+						// token, 4-byte length and status precede the text
+						cmd += strings.Repeat(" ", tp.Fill*(conn.PacketSize()-8)-6-len(cmd))
+					}
+					if err := ch.SendPackage(ctx, &tds.LanguagePackage{Cmd: cmd}); err != nil {
+						tr.sendErrs = append(tr.sendErrs, err.Error())
+						break
+					}
+					if !tp.Split {
+						receive()
+					}
 					for i := 0; i < tp.Pause; i++ {
 						simrt.Yield(0)
 					}
+				}
+				if consumer != nil {
+					simrt.Join(consumer)
 				}
 				if !tp.NoClose {
 					tr.closeCall = simrt.Record("close-call", "", "", 0)
@@ -622,6 +654,9 @@ func (c12) Run(plan interface{}, schedSeed uint64, replay []simrt.Choice, lenien
 	}
 	if interleaved {
 		v.Probe("interleaved-responses")
+	}
+	if splitUsed {
+		v.Probe("channel-used-by-sender-and-receiver-tasks")
 	}
 	if concurrentSetup || interleaved {
 		v.Nontrivial = fmt.Sprintf("%016x", out.LogHash)
